@@ -106,7 +106,7 @@ PROPS = {
              "aux region); non-trivial = a script with a partial transfer or interruption before completion, or mixed octet/chunk endpoints; distinct by the serialised case",
         assumptions=COMMON_ASSUME + ["drivers never transfer more than asked; hard errors are sticky; transient 0/EINTR/EAGAIN results are only generated for the chunk API "
                                      "(the per-octet plumbing documents no retry); aux buffers designate the region [offset, used)"],
-        targets=[enum("enum", ["props/C17_enum.cpp"], qs=12, ts=16)],
+        targets=[enum("enum", ["props/C17_enum.cpp"], qs=12, ts=16), enum("lib", ["props/C17_lib_enum.cpp"], qs=8, ts=16)],
     ),
     "C13": dict(
         level="exploration",
@@ -297,7 +297,8 @@ MANIFEST_TEXT = {
         technique="bounded-exhaustive driver-behaviour scripts (all scripts <= 5/7 over 8 behaviours x N x API x driver style) + plumbing grid + random long transfers against a stream model",
         level_text="Scripted octet- and chunk-style drivers sit on a model stream and record what was really moved, so exactness (no loss, duplication, reordering) is observed "
                    "independently of return values; every behaviour script up to length 5 (thorough 7) is enumerated for the four chunk calls, the nine plumbing calls run over a grid of "
-                   "stream lengths, counts, partial/hard-error scripts and aux regions inside exact-size (ASan) blocks.",
+                   "stream lengths, counts, partial/hard-error scripts and aux regions inside exact-size (ASan) blocks. A second target drives the endpoints the library itself supplies "
+                   "(buffer, chunk-list, instrumentable and file-descriptor sources and sinks) through every short call sequence and the plumbing.",
         level_note=NOTE_COMMON,
     ),
     "C13": dict(
